@@ -45,6 +45,8 @@
 -/
 import MdProofs.Lemmas.WalkMixedX86
 import MdProofs.Lemmas.WalkMixedChain
+import MdProofs.Lemmas.WalkMixedLayout
+import MdProofs.C04
 set_option linter.unusedSimpArgs false
 namespace MdModel.Walk
 open MdModel MdModel.Win
@@ -532,5 +534,53 @@ example : (walk exM64Env (some exM64Mem) exM64Ctx).map
     [(.context, 0x400300, 0x8000, 0x400300, some 9), (.scan, 0x400128, 0x8010, 0x400120, none),
      (.cfi, 0x400508, 0x8030, 0x400500, some 0x77), (.scan, 0x400608, 0x8040, 0x400600, none)] := by
   decide +kernel
+
+/-! ## discharging a precondition once: the generator's frame-pointer layout on x86-64
+
+  `Pre` / `PreW` are evaluated by the compiled model on every generated case. For ONE technique —
+  frame-pointer chains on x86-64 (not Windows), generator `gen_chain` with `tech = "fp"` — the
+  layout is mirrored as a Lean function (`fpWords` / `fpChain`, Lemmas/WalkMixedLayout.lean:
+  context `rsp = addr s0`, `rbp = addr f0`; per call a record `w[f] = addr f'`, `w[f+1] = ret`,
+  `f' = f + 2 + gap`; the outermost record `(0, 0)`, zero words after it) and `preFp` is PROVED of
+  it for all parameters (`preFp_layout`). With `walk_layout_fp` the generated chain itself is a
+  theorem about the layout function — no per-case evaluation. -/
+
+/-- **every frame-pointer stack the layout function produces is walked to its chain**: any base
+    above 16 keeping 32 bytes clear of the top of the address space, any word positions `s0 ≤ f0`
+    of the context's `rsp` / `rbp`, any number of calls with any gaps between the records, any
+    canonical return addresses `≥ 4096`, any amount of trailing zeros; any environment without
+    STACK CFI / STACK WIN for these frames; any other registers of the context -/
+theorem walk_layout_fp_generated (env : Env) (harch : env.arch = .amd64) (hos : env.os ≠ .windows)
+    (hcfi : NoCfi env) (base s0 f0 tail : Nat) (calls : List (Nat × Nat)) (ip : Nat)
+    (hbase : 16 < base) (hs : s0 ≤ f0)
+    (htop : base + 8 * (fpWords base f0 tail calls).length + 32 ≤ U64MAX)
+    (hrets : ∀ c ∈ calls, 4096 ≤ c.2 ∧ c.2 ≤ U64MAX ∧ nonCanonAmd64 c.2 = false) :
+    walk env (some (wordsMem base (fpWords base f0 tail calls)))
+        { ip := ip, sp := wAddr base s0, rest := [("rbp", wAddr base f0)] } =
+      symbolise env (Frame.ofCtx { ip := ip, sp := wAddr base s0, rest := [("rbp", wAddr base f0)] } .context) ::
+        expectedFp env .amd64 (fpChain base f0 calls) := by
+  have hlen : 3 ≤ (fpWords base f0 tail calls).length := by
+    simp only [fpWords, List.length_append, List.length_replicate, fpTail_length]
+    have := fpEnd_ge calls f0
+    omega
+  have hm : (wordsMem base (fpWords base f0 tail calls)).range?.isSome = true := by
+    have hU : U64MAX = 18446744073709551615 := rfl
+    have hb : (wordsMem base (fpWords base f0 tail calls)).base = base := rfl
+    simp only [Mem.range?, wordsMem_size, hb]
+    rw [if_neg (by omega), if_neg (by omega)]
+    rfl
+  exact walk_layout_fp env .amd64 harch rfl (fun _ => hos) hcfi _ hm _ rfl rfl _
+    (preFp_layout env.os hos env.mask base s0 f0 tail calls hbase hs htop hrets)
+
+-- non-vacuity: the layout for two calls (gaps 1 and 0) is the hand-written stack one would expect,
+-- and the hypotheses of `walk_layout_fp_generated` hold of it
+example : fpWords 0x8000 2 1 [(1, 0x400120), (0, 0x400500)] =
+    [0, 0, 0x8028, 0x400120, 0, 0x8038, 0x400500, 0, 0, 0, 0] := by decide
+example : (fpChain 0x8000 2 [(1, 0x400120), (0, 0x400500)]).map (fun e => (e.ret, e.sp, e.fp)) =
+    [(0x400120, 0x8020, some 0x8028), (0x400500, 0x8038, some 0x8038)] := by
+  decide
+example : preFp .amd64 .other 0 (wordsMem 0x8000 (fpWords 0x8000 2 1 [(1, 0x400120), (0, 0x400500)]))
+    (wAddr 0x8000 1) (wAddr 0x8000 2) (fpChain 0x8000 2 [(1, 0x400120), (0, 0x400500)]) = true :=
+  preFp_layout .other (by decide) 0 0x8000 1 2 1 _ (by decide) (by decide) (by decide) (by decide)
 
 end MdModel.Walk
